@@ -9,11 +9,11 @@ package main
 // observable state and asks the Lean model to make the same step.
 
 import (
-	"os"
 	"bytes"
 	"context"
 	"errors"
 	"fmt"
+	"os"
 	"reflect"
 	"runtime"
 	"sort"
